@@ -96,19 +96,6 @@ def handleRes (op : String) (args : List String) : Option String :=
     match readGB32 b with
     | some i => pure ("some " ++ toString i)
     | none => pure "none"
-  | "fmtres", [r] => do
-    let r ← decRes r
-    pure (hexOfBytes (fmtRes r))
-  | "fmtretain", [ids] => do
-    let ids ← parseHexList ids
-    pure (hexOfBytes (fmtRetain ids))
-  | "fmtsrc", [mw, tw, lang, path, as] => do
-    let mw ← mw.toNat?
-    let tw ← tw.toNat?
-    let lang ← decLang lang
-    let path ← bytesOfHex path
-    let as ← parseHexList as
-    pure (hexOfBytes (fmtSrc mw tw lang path as))
   | "fmtstage", [s] => do
     let s ← decStage0 s
     pure (hexOfBytes (fmtStage0 s))
@@ -125,15 +112,6 @@ def handleRes (op : String) (args : List String) : Option String :=
     let b ← bytesOfHex s
     match parseStage0 b with
     | some st => pure ("some " ++ encStage0 st)
-    | none => pure "none"
-  | "parseres", [s] => do
-    -- the `Resources` of a minimal stage: `none` (rejected), `nores`, or `some <Res>`
-    let b ← bytesOfHex s
-    match parseStage0 b with
-    | some st =>
-      match st.res with
-      | some r => pure ("some " ++ encRes r)
-      | none => pure "nores"
     | none => pure "none"
   | _, _ => none
 
